@@ -103,6 +103,11 @@ def _peval(t, env: Dict[tuple, object], funcs=None):
             other = r if l == NONE else l
             if _is_const(other):
                 return ("const", (t[1] == "isnot"))
+            # arithmetic, comparisons and displays are never None
+            if other[0] in ("bin", "neg", "cmp", "not", "tuple", "list", "dict", "set", "comp") or (
+                    other[0] == "call" and other[1] in (("builtin", "len"), ("builtin", "int"), ("builtin", "float"), ("builtin", "str"),
+                                                         ("builtin", "abs"), ("builtin", "bool"))):
+                return ("const", (t[1] == "isnot"))
         if t[1] in ("in", "notin") and _is_const(l) and r[0] in ("list", "tuple", "set") and all(_is_const(x) for x in r[1]):
             hit = l[1] in [x[1] for x in r[1]]
             return ("const", hit if t[1] == "in" else not hit)
